@@ -1340,9 +1340,8 @@ Proof.
     split; [apply HE|intros _; apply HE].
 Qed.
 
-(* the B-tree iterator walk is not yet available at machine level (Proofs/IterTreeBT.v); the
-   iteration clause for BTree is therefore taken as an explicit premise that a theorem of the shape
-   below discharges by one [exact] *)
+(* the iteration clause for BTree as an explicit premise; it is a theorem ([bt_iter_ok_proof], section 14,
+   from Proofs/IterTreeMachine.v), which gives [C11_roundtrip_all_proof] *)
 Definition bt_iter_ok : Prop :=
   forall c ops, ckind c = BTree -> 3 <= corder c ->
     each_of c (run c ops) = Some (entries_of c (run c ops)) /\
@@ -2466,7 +2465,7 @@ Proof.
     split; [exact Er|]. unfold oeq. rewrite K. split; [exact N1|]. split; [exact N2|]. exists q'. split; assumption.
 Qed.
 
-(* the B-tree iterator: the answers of a script depend on the entries only (pending: Proofs/IterTreeBT.v) *)
+(* the B-tree iterator: the answers of a script depend on the entries only ([bt_script_ok_proof], section 14) *)
 Definition bt_script_ok : Prop :=
   forall c ops1 ops2 cs, ckind c = BTree -> 3 <= corder c ->
     entries_of c (run c ops1) = entries_of c (run c ops2) ->
@@ -2548,13 +2547,14 @@ Qed.
 (* ================================================================================================ *)
 (* 13. C11 round trip: the strongest unconditional form                                             *)
 (* ================================================================================================ *)
-(* FULL statement (not yet proved for BTree's iteration clause):
+(* FULL statement (proved as [C11_roundtrip_all_proof] in section 14; this section keeps the form
+   that does not need the B-tree iterator theorem):
      forall c ops, config_ok c ->
        let s := run c ops in
        let '(s', ok) := from_json c (decode_of (to_json c s)) (init c) in
        ok = true /\ equivalent c s s'.
-   Missing: [equiv_iter] for ckind c = BTree, i.e. a machine-level theorem that the B-tree iterator
-   walks [entries_of] ([bt_iter_ok]); see [C11_roundtrip_full_proof]. *)
+   [equiv_iter] for ckind c = BTree needs the machine-level theorem that the B-tree iterator
+   walks [entries_of] ([bt_iter_ok]); see [C11_roundtrip_full_proof] and section 14. *)
 Theorem C11_roundtrip_partial_proof : forall c ops, config_ok c ->
   let s := run c ops in
   let '(s', ok) := reload c s in
@@ -2581,3 +2581,69 @@ Print Assumptions C12_denotes_map_proof.
 Print Assumptions C12_denotes_bidi_proof.
 Print Assumptions C12_denotes_set_proof.
 Print Assumptions C12_denotes_linkedmap_proof.
+
+(* ================================================================================================ *)
+(* 14. the B-tree iterator premises discharged (Proofs/IterTreeMachine.v): C11 for all 21 kinds      *)
+(* ================================================================================================ *)
+From Gods Require Proofs.IterTreeMachine.
+
+Lemma btree_tree_cfg : forall c, ckind c = BTree -> 3 <= corder c ->
+  IterTreeMachine.is_tree_iter_kind (ckind c) = true /\ IterTreeMachine.btree_ok c = true.
+Proof.
+  intros c K Hb. unfold IterTreeMachine.btree_ok. rewrite K. split; [reflexivity|]. apply Z.leb_le. exact Hb.
+Qed.
+
+Lemma btree_iter_seq : forall c s, ckind c = BTree -> IterTreeMachine.tree_iter_seq c s = entries_of c s.
+Proof. intros c s K. unfold IterTreeMachine.tree_iter_seq. rewrite K. reflexivity. Qed.
+
+(* the B-tree iterator walks [entries_of], forwards and backwards, after every history *)
+Theorem bt_iter_ok_proof : bt_iter_ok.
+Proof.
+  intros c ops K Hb. destruct (btree_tree_cfg c K Hb) as [Hk Ho]. split.
+  - rewrite (IterTreeMachine.each_of_tree_machine c ops Hk Ho), (btree_iter_seq c _ K). reflexivity.
+  - exact (IterTreeMachine.each_back_tree_machine c ops Hk Ho).
+Qed.
+
+(* the answers of a script depend on the entries only *)
+Theorem bt_script_ok_proof : bt_script_ok.
+Proof.
+  intros c ops1 ops2 cs K Hb E. destruct (btree_tree_cfg c K Hb) as [Hk Ho].
+  apply IterTreeMachine.tree_iter_seq_only; [exact Hk|exact Ho|]. rewrite !(btree_iter_seq c _ K). exact E.
+Qed.
+
+(* C11 round trip, every kind, iteration clause included *)
+Theorem C11_roundtrip_all_proof : forall c ops, config_ok c ->
+  let s := run c ops in
+  let '(s', ok) := reload c s in
+  ok = true /\ equivalent c s s'.
+Proof. exact (C11_roundtrip_full_proof bt_iter_ok_proof). Qed.
+
+(* C11 same future, every kind: equal answers to every further operation sequence, and the two
+   containers stay equivalent (iteration order included) *)
+Theorem C11_same_future_unconditional_proof : forall c ops more, config_ok c ->
+  let s := run c ops in
+  let s' := fst (reload c s) in
+  results_from c s' more = results_from c s more /\
+  oeq c (run_from c s more) (run_from c s' more) /\
+  equivalent c (run_from c s more) (run_from c s' more).
+Proof.
+  intros c ops more Hc s s'.
+  destruct (C11_same_future_all_proof c ops more Hc (or_intror bt_script_ok_proof)) as (Hr & Ho & Hcont & Hit).
+  fold s in Hr, Ho, Hcont, Hit. fold s' in Hr, Ho, Hcont, Hit.
+  split; [exact Hr|]. split; [exact Ho|]. split; [exact Hcont|].
+  assert (D : {ckind c = BTree} + {ckind c <> BTree}) by (destruct (ckind c); (left; reflexivity) || (right; discriminate)).
+  destruct D as [K|K]; [|apply Hit; exact K].
+  destruct Hc as [Hb Hring]. specialize (Hb K).
+  assert (E1 : run_from c s more = run c (ops ++ more)) by (unfold s; rewrite run_app; reflexivity).
+  assert (E2 : run_from c s' more = run c ([FromJSON (decode_of (to_json c s))] ++ more)).
+  { unfold s'. rewrite (reload_reachable c s (conj (fun _ => Hb) Hring)), run_app. reflexivity. }
+  destruct Hcont as (_ & _ & _ & E & _). rewrite E1, E2 in *.
+  destruct (bt_iter_ok_proof c (ops ++ more) K Hb) as [F1 B1].
+  destruct (bt_iter_ok_proof c ([FromJSON (decode_of (to_json c s))] ++ more) K Hb) as [F2 B2].
+  unfold equiv_iter. rewrite F1, B1, F2, B2, E. split; reflexivity.
+Qed.
+
+Print Assumptions bt_iter_ok_proof.
+Print Assumptions bt_script_ok_proof.
+Print Assumptions C11_roundtrip_all_proof.
+Print Assumptions C11_same_future_unconditional_proof.
